@@ -56,15 +56,48 @@ def u64(b):
     return struct.unpack("<Q", b)[0]
 
 
+AMBIENT = ["", "global-locale-groups-by-3", "global-locale-groups-1-2+errno", "C.UTF-8-locale+errno"]   # = c10::kAmbientNames
+
+
+def digest_value_classes(dg):
+    """rare classes of a digest VALUE (what the renderings take as input); same labels as the C++ harness"""
+    out = []
+    if all(0x20 <= b <= 0x7E or b in (9, 10, 13) for b in dg):
+        out.append("all-bytes-printable-ascii")
+    if all(b < 0x80 for b in dg):
+        out.append("all-bytes<0x80")
+    if all(b >= 0x80 for b in dg):
+        out.append("all-bytes>=0x80")
+    if all(c in "0123456789" for c in dg.hex()):
+        out.append("all-hex-digits-decimal")
+    if dg.hex().startswith("00000"):
+        out.append(">=5-leading-zero-nibbles")
+    if dg.count(0) >= 3:
+        out.append(">=3-zero-bytes")
+    return out
+
+
 def run_digest(case, rt):
     d = data_of(case)
     cs, s32, s64 = case.get("cs", 1), case.get("s32", 2), case.get("s64", 3)
-    status, r = rt.shim.call("hash", d, struct.pack("<IIQ", cs, s32, s64))
-    vcheck(status == "ok", "shim-exception", status)
-    for name, ref, k in (("MD5", hashlib.md5, 0), ("SHA1", hashlib.sha1, 2), ("SHA256", hashlib.sha256, 4)):
-        exp = ref(d).digest()
-        vcheck(r[k] == exp, "digest:" + name, "%s of %d bytes is %s, hashlib says %s" % (name, len(d), r[k].hex(), exp.hex()))
-        vcheck(r[k + 1].decode("latin-1").lower() == exp.hex(), "hex:" + name, "%s.hex() is %r, expected %s" % (name, r[k + 1], exp.hex()))
+    amb = case.get("amb", 0)
+    # untouched process state first (plain signatures), then the same message under the ambient locale state
+    for a in ([0, amb] if amb else [0]):
+        status, r = rt.shim.call("hash", d, struct.pack("<IIQ", cs, s32, s64), struct.pack("<Q", a))
+        vcheck(status == "ok", "shim-exception", status)
+        sfx = (":" + AMBIENT[a]) if a else ""
+        for name, ref, k in (("MD5", hashlib.md5, 0), ("SHA1", hashlib.sha1, 2), ("SHA256", hashlib.sha256, 4)):
+            exp = ref(d).digest()
+            vcheck(r[k] == exp, "digest:" + name + sfx, "%s of %d bytes is %s, hashlib says %s" % (name, len(d), r[k].hex(), exp.hex()))
+            vcheck(r[k + 1].decode("latin-1").lower() == exp.hex(), "hex:" + name + sfx, "%s.hex() is %r, expected %s%s" % (name, r[k + 1], exp.hex(), " (ambient state: %s)" % AMBIENT[a] if a else ""))
+            if not a:
+                for cl in digest_value_classes(exp):
+                    rt.cls("py_digest-value:%s:%s" % (name, cl))
+        if not a:
+            r0 = r
+    if amb:
+        rt.cls("py_digest:ambient=" + AMBIENT[amb])
+    r = r0   # the integer results below are taken from the call under untouched process state
     vcheck(u64(r[6]) == zlib.crc32(d), "crc32", "crc32 of %d bytes is %#x, zlib says %#x" % (len(d), u64(r[6]), zlib.crc32(d)))
     small = len(d) <= 70000
     if small:
@@ -104,7 +137,26 @@ def enum_digest(rt, ex):
         idx += 1
         if rt.mine(idx):
             ex({"len": n, "pat": 4, "seed": n})
-    rt.exhaustive["py_digest"] = "every length 0..300 x {zeros, 0xFF, i mod 251, SHAKE-128 stream keyed by the length} against hashlib/zlib, plus %s bytes" % sizes
+    # every length 0..130 under every ambient locale state
+    for n in range(0, 131):
+        idx += 1
+        if rt.mine(idx):
+            for amb in (1, 2, 3):
+                ex({"len": n, "pat": 3, "amb": amb})
+    # the saved messages whose digest lies in a rare value class (found by the reference-directed search of the C++ harness)
+    saved = 0
+    cdir = os.path.join(os.path.dirname(os.path.abspath(__file__)), "..", "corpus", "c10")
+    for fn in sorted(os.listdir(cdir)) if os.path.isdir(cdir) else []:
+        if not (fn.startswith("digest-value-") and fn.endswith(".case")):
+            continue
+        blobs = [ln[2:].strip() for ln in open(os.path.join(cdir, fn)) if ln.startswith("s=")]
+        if blobs:
+            saved += 1
+            idx += 1
+            if rt.mine(idx):
+                ex({"hex": blobs[0]})
+    rt.exhaustive["py_digest"] = ("every length 0..300 x {zeros, 0xFF, i mod 251, SHAKE-128 stream keyed by the length} against hashlib/zlib, plus %s bytes; "
+                                  "every length 0..130 under 3 ambient locale states; %d saved messages with a digest in a rare value class" % (sizes, saved))
 
 
 def enum_chain(rt, ex):
@@ -125,7 +177,9 @@ def digest_cases(draw):
     if big == 0:
         return {"len": draw(st.integers(0, 1 << 20)), "pat": 4, "seed": draw(st.integers(0, 1 << 30)), "cs": draw(st.integers(0, M32)), "s32": draw(st.integers(0, M32)), "s64": draw(st.integers(0, M64))}
     d = draw(st.binary(max_size=draw(st.sampled_from([80, 200, 1024, 8192]))))
-    return {"hex": d.hex(), "cs": draw(st.integers(0, M32)), "s32": draw(st.integers(0, M32)), "s64": draw(st.integers(0, M64))}
+    # a third of the messages are also hashed and rendered under another process locale (ambient state, like errno)
+    return {"hex": d.hex(), "cs": draw(st.integers(0, M32)), "s32": draw(st.integers(0, M32)), "s64": draw(st.integers(0, M64)),
+            "amb": draw(st.sampled_from([0, 0, 0, 0, 1, 2, 3]))}
 
 
 @st.composite
